@@ -193,9 +193,14 @@ def tlc(workdir, module, cfg_text, workers=None, simulate=None, depth=None, seed
     cfgp = os.path.join(workdir, cfg_name)
     open(cfgp, "w").write(cfg_text)
     md = tempfile.mkdtemp(prefix="md-", dir=workdir)
-    cmd = ["java", "-XX:+UseParallelGC", "-Xss512m"]
-    if heap:
-        cmd.append("-Xmx" + heap)
+    w = int(workers or 1)
+    if w == 1:
+        # many single-worker JVMs run side by side (trace validation, simulation): keep each one small
+        cmd = ["java", "-XX:+UseSerialGC", "-XX:TieredStopAtLevel=4", "-XX:CICompilerCount=2", "-Xss512m", "-Xmx" + (heap or "4g")]
+    else:
+        cmd = ["java", "-XX:+UseParallelGC", "-XX:ParallelGCThreads=%d" % max(2, min(w, 8)), "-Xss512m"]
+        if heap:
+            cmd.append("-Xmx" + heap)
     cmd += ["-cp", TLC_JAR, "tlc2.TLC", "-metadir", md, "-config", cfgp, "-workers", str(workers or 1)]
     if simulate is not None:
         cmd += ["-simulate", "num=%d" % simulate]
@@ -333,3 +338,82 @@ class Verdict:
             log("  ", what)
         sys.stdout.flush()
         return 1 if self.violations else 0
+
+
+def validate_sharded(workdir, module, fname, recs, shards, family, constants="", also=(), timeout=1800):
+    """recs: list of recordings (each a list of ndjson strings starting with a Reset line).
+    Validates them with the trace spec `module` in `shards` parallel TLC runs.
+    Returns [(rec_index, line_index_in_rec, event_dict, signature)] for every recording that leaves the spec."""
+    idx = list(range(len(recs)))
+    shards = max(1, min(shards, len(recs)))
+    chunks = [idx[i::shards] for i in range(shards)]
+
+    def one(ch):
+        if not ch:
+            return []
+        lines, owner = [], []
+        for ri in ch:
+            for k, ln in enumerate(recs[ri]):
+                lines.append(ln)
+                owner.append((ri, k))
+        bad, n, r = validate_trace(workdir, module, fname, lines, constants=constants, family=family, also=also, timeout=timeout)
+        out = []
+        for b in bad:
+            lno, sig = (b, "") if isinstance(b, int) else (b[0], b[1])
+            ri, k = owner[lno - 1]
+            out.append((ri, k, json.loads(lines[lno - 1]), sig))
+        return out
+
+    res = []
+    for r in pool_map(one, chunks, workers=min(shards, NCPU)):
+        res.extend(r)
+    return res
+
+
+def split_recordings(path, reset_marker='"a":"Reset"'):
+    """Split an ndjson recording file into per-script lists of lines at Reset lines."""
+    groups, cur = [], None
+    with open(path) as f:
+        for ln in f:
+            ln = ln.rstrip("\n")
+            if not ln:
+                continue
+            if reset_marker in ln:
+                cur = []
+                groups.append(cur)
+            if cur is None:
+                raise Inconclusive("recording does not start with a Reset line: " + path)
+            cur.append(ln)
+    return groups
+
+
+def run_player(player, scratch, name, script_lines, shards, out_name="hist.ndjson", args_fn=None, timeout=1800):
+    """Run a player binary on script lines (already serialised), sharded round-robin.
+    Header lines (confdefs) are given to every shard. Returns list of (script_line, recording_lines)."""
+    headers = [s for s in script_lines if '"confdef"' in s]
+    body = [s for s in script_lines if '"confdef"' not in s]
+    shards = max(1, min(shards, len(body) or 1))
+    chunks = [body[i::shards] for i in range(shards)]
+
+    def one(ix):
+        ch = chunks[ix]
+        if not ch:
+            return []
+        d = scratch.sub("%s-%d" % (name, ix))
+        sp = os.path.join(d, "scripts.ndjson")
+        with open(sp, "w") as f:
+            for s in headers + ch:
+                f.write(s + "\n")
+        op = os.path.join(d, out_name)
+        p = run([player, "-scripts", sp, "-out", op], cwd=d, timeout=timeout, check=False)
+        if p.returncode != 0:
+            raise Inconclusive("player %s failed rc=%d: %s %s" % (name, p.returncode, p.stdout.decode(errors="replace")[-500:], p.stderr.decode(errors="replace")[-2000:]))
+        groups = split_recordings(op)
+        if len(groups) != len(ch):
+            raise Inconclusive("player %s produced %d recordings for %d scripts" % (name, len(groups), len(ch)))
+        return list(zip(ch, groups))
+
+    out = []
+    for r in pool_map(one, range(shards), workers=min(shards, NCPU)):
+        out.extend(r)
+    return out
